@@ -183,7 +183,7 @@ class SimWriteFile:
         self._rel = rel
         self.mode = mode
         self._binary = 'b' in mode
-        self.encoding = None if self._binary else (encoding or 'utf-8')
+        self.encoding = None if self._binary else (encoding or ch.plan.get('locale_encoding') or 'utf-8')
         self.errors = errors or 'strict'
         self._newline = newline
         flags = os.O_WRONLY | os.O_CREAT
@@ -470,6 +470,10 @@ def _install(ch):
                 ch.log({'k': 'unsupported', 'path': rel, 'op': 'open', 'mode': mode})
                 raise io.UnsupportedOperation('tallysim: mode %r not modelled' % mode)
             return SimWriteFile(ch, os.fspath(file), rel, mode, encoding, errors, newline)
+        if encoding is None and 'b' not in mode and rel is not None and ch.plan.get('locale_encoding'):
+            # a text file opened without an explicit encoding is decoded with the machine's locale encoding
+            encoding = ch.plan['locale_encoding']
+            ch.log({'k': 'locale-open', 'path': rel})
         rp = ch.reads.get(rel) if rel is not None else None
         if rel is not None and ch.plan.get('log_reads'):
             ch.log({'k': 'read', 'path': rel})
@@ -826,10 +830,49 @@ def _install(ch):
     os.environ.update(env)
 
 
+def _reimport_optimized():
+    """The interpreter was started with -O / PYTHONOPTIMIZE=1: tally's modules as they are then - compiled from source with
+    assert statements and `if __debug__` blocks removed.  (The flag cannot be flipped in a running interpreter, so the
+    simulated process re-imports tally through a loader that compiles with optimize=1; nothing is written to disk.)"""
+    import importlib.abc
+    import importlib.machinery
+    import importlib.util
+    from . import REPO
+    src = os.path.realpath(os.path.join(REPO, 'src'))
+    for name in [m for m in sys.modules if m == 'tally' or m.startswith('tally.')]:
+        del sys.modules[name]
+
+    class OptLoader(importlib.machinery.SourceFileLoader):
+        def get_code(self, fullname):
+            path = self.get_filename(fullname)
+            with _real_open(path, 'rb') as f:
+                data = f.read()
+            return compile(data, path, 'exec', dont_inherit=True, optimize=1)
+
+    class OptFinder(importlib.abc.MetaPathFinder):
+        def find_spec(self, fullname, path=None, target=None):
+            if fullname != 'tally' and not fullname.startswith('tally.'):
+                return None
+            rel = fullname.split('.')
+            base = os.path.join(src, *rel)
+            if os.path.isdir(base) and os.path.exists(os.path.join(base, '__init__.py')):
+                file, pkg = os.path.join(base, '__init__.py'), True
+            elif os.path.exists(base + '.py'):
+                file, pkg = base + '.py', False
+            else:
+                return None
+            return importlib.util.spec_from_file_location(fullname, file, loader=OptLoader(fullname, file),
+                                                          submodule_search_locations=[base] if pkg else None)
+    sys.meta_path.insert(0, OptFinder())
+    import tally.cli  # noqa: F401
+
+
 def _child_main(root, ctl, cwd, plan, target):
     """Runs in the forked child.  Never returns."""
     code = 70
     try:
+        if (plan or {}).get('pyopt'):
+            _reimport_optimized()
         os.chdir(os.path.join(root, cwd or '.'))
         ch = _Child(root, ctl, plan)
         _install(ch)
@@ -908,9 +951,16 @@ def _read(path, binary=False):
 _ctl_seq = [0]
 
 
+# per-run environment defaults (set by the driver from the seed, stored in replay files): plan keys every simulated
+# process of the run gets unless its own plan says otherwise.  Today: 'locale_encoding'.
+RUN_DEFAULTS = {}
+
+
 def spawn(world, plan, target, cwd='.', ctl_parent=None, timeout=PROC_TIMEOUT_S):
     """Fork a simulated process in `world`, run target(ch) in it, collect what it did."""
     import shutil
+    if RUN_DEFAULTS:
+        plan = dict(RUN_DEFAULTS, **(plan or {}))
     ctl_parent = ctl_parent or (world.rstrip('/') + '.ctl')
     os.makedirs(ctl_parent, exist_ok=True)
     _ctl_seq[0] += 1
